@@ -475,6 +475,16 @@ func (c *collection) create(
 		return NewErrDocumentDeleted(primaryKey.DocID)
 	}
 
+	// A document that the requester is not allowed to read is reported as not existing by the
+	// check above. It must not be written over by a create with the same content (same docID).
+	occupied, err := datastore.CtxMustGetTxn(ctx).Datastore().Has(ctx, primaryKey.Bytes())
+	if err != nil {
+		return err
+	}
+	if occupied {
+		return NewErrDocumentAlreadyExists(primaryKey.DocID)
+	}
+
 	// write value object marker if we have an empty doc
 	if len(doc.Values()) == 0 {
 		txn := datastore.CtxMustGetTxn(ctx)
